@@ -40,8 +40,8 @@ PROFILES = {
                 p_nested=0.4, width=(2, 2, 3)),
     'c08f': dict(kinds=dict(handler=4, proc=6, buffer=1, batcher=0, gates=0, path=0), width=(2, 3, 3), n_layers=(1, 1, 2),
                  p_fanin=1.0, p_resources=0.7, n_sources=(1, 1, 2), p_batch_source=0.0,
-                 fault_kinds=('fail', 'shutdown', 'restore', 'wo', 'addres', 'block', 'block', 'wake'),
-                 n_ops=(2, 5, 10, 20)),
+                 fault_kinds=('fail', 'shutdown', 'restore', 'wo', 'addres', 'block', 'block', 'block', 'wake'),
+                 n_ops=(5, 10, 20, 40), sink_ct=(0, 0.5, 1, 2, 3)),
     'cp': dict(n_sources=(1,), n_layers=(1, 1, 2), width=(1, 1, 2), kinds=dict(handler=1, proc=6, buffer=1, batcher=0, gates=0, path=0.5),
                p_resources=0.4, p_maintainer=1.0, n_ops=(0,), horizon=(4, 6, 8), p_split=0.0, p_batch_source=0.1, starve=False),
     'c11': dict(kinds=dict(handler=2, proc=8, buffer=2, batcher=0, gates=1, path=3), p_resources=1.0,
@@ -282,7 +282,7 @@ def _gen_spec(rng, profile_name, P):
     sinks = []
     for s in range(rng.choice((1, 1, 2))):
         sinks.append(add({'k': 'sink', 'n': f'K{s}', 'up': _subset(rng, last, 0.7),
-                          'ct': rng.choice((0, 0, 0.25, 0.5, 1, 2))}))
+                          'ct': rng.choice(P.get('sink_ct', (0, 0, 0.25, 0.5, 1, 2)))}))
     # every non-sink top-level device needs a downstream
     by_name = {d['n']: d for d in devices}
     has_down = set()
